@@ -221,6 +221,13 @@ def obligations(tier, seed):
                          query_ms=60000, timeout_s=900)
     for kind in ('list', 'tuple', 'ndarray'):
         yield Ob('filter_linear', {'n': 40, 'lo': 1.0, 'hi': 10.0, 'order': 2, 'gibbs': None, 'kind': kind}, timeout_s=900)
+    # odd and even lengths for every padding mode (the split of the pad between both ends depends on the parity), incl. the
+    # value 0 that Cluster.combine_motions passes
+    for nn in (41, 37, 40):
+        for gibbs in ('start', 'end', 'mid', 0):
+            yield Ob('filter_linear', {'n': nn, 'lo': 0.5, 'hi': 5.0, 'order': 2, 'gibbs': gibbs, 'kind': 'tuple'}, query_ms=60000,
+                     timeout_s=900)
+    yield Ob('filter_linear', {'n': 41, 'lo': None, 'hi': 8.0, 'order': 3, 'gibbs': 'mid', 'kind': 'list'}, query_ms=60000, timeout_s=900)
     n = 240 if q else 400
     for dt in (0.01, 0.03):
         sc = 0.01 / dt
